@@ -525,10 +525,19 @@ def tables(ctx, mi, T):
         got[norm_text(st.body[0].value)] = ast.literal_eval(st.test.comparators[0])
       except Exception:
         pass
+  # the same mapping written as a table: a module-level dict {triad tuple: quality} that the function looks its triad up in
+  for n_ in ast.walk(q.node):
+    if isinstance(n_, ast.Name) and len(q.module.assigns.get(n_.id, [])) == 1 and isinstance(q.module.assigns[n_.id][0], ast.Dict):
+      for k_, v_ in zip(q.module.assigns[n_.id][0].keys, q.module.assigns[n_.id][0].values):
+        try:
+          got.setdefault(norm_text(v_), ast.literal_eval(k_))
+        except Exception:
+          pass
   for nm in names:
     ok = got.get(nm) == want[nm]
     ctx.ob('TAB/quality', q, q.node, ok, '%s is the triad %s of kind row %d' % (nm, want[nm], names.index(nm)) if ok else
-           '%s tests the triad %s but kind row %d (%s) has alterations %s' % (nm, got.get(nm), names.index(nm), T['_CHORD_KINDS'][names.index(nm)][0][:2], want[nm]), construct='%s triad' % nm)
+           '%s tests the triad %s but kind row %d (%s) has alterations %s' % (nm, got.get(nm), names.index(nm), T['_CHORD_KINDS'][names.index(nm)][0][:2], want[nm]), construct='%s triad' % nm,
+           unknown=None if nm in got else 'how chord_symbol_quality maps triads to %s is not recognised (neither an if-chain on a tuple nor a module-level table)' % nm)
 
 
 # ------------------------------------------------------------------ S4
